@@ -140,6 +140,44 @@ def stdDecision : Decision :=
             ([.cmp "ncpu" .gt 4], .muldiv "ncpu" 4 5)]
     serialNcpu := .lit 1 }
 
+/-- the override between the decision and the parallel / serial split:
+`if parallel == whenMode and not isinstance(notStrOf, str): try: probe except handler: failVar = failMode` -/
+structure PickleGuard where
+  present : Bool
+  whenMode : String
+  notStrOf : String
+  probe : String
+  handler : String
+  failVar : String
+  failMode : String
+deriving DecidableEq, Repr
+
+/-- srs.srs as repaired (F53): a `peak` function is sent to the workers inside every task, so one
+that cannot be pickled forces the serial path -/
+def stdGuard : PickleGuard :=
+  { present := true, whenMode := "yes", notStrOf := "peak", probe := "pickle.dumps(methfunc)",
+    handler := "Exception", failVar := "parallel", failMode := "no" }
+
+def noGuard : PickleGuard :=
+  { present := false, whenMode := "", notStrOf := "", probe := "", handler := "", failVar := "", failMode := "" }
+
+/-- what the caller passed as `peak` -/
+inductive PeakArg where
+  | name          -- one of the strings 'abs', 'pos', …
+  | picklable     -- a function `pickle.dumps` accepts (a module-level function)
+  | unpicklable   -- a function it refuses (a lambda, a nested function)
+deriving DecidableEq, Repr
+
+/-- the mode after the guard: the probe raises exactly for an unpicklable function, and the probe is
+only reached in mode `whenMode` with a `peak` that is not a string -/
+def guardedMode (G : PickleGuard) (m : String) (peak : PeakArg) : String :=
+  if G.present && m == G.whenMode && peak == PeakArg.unpicklable then G.failMode else m
+
+/-- decision of the routine: `_process_parallel`, then the guard (`ncpu` is left as it is) -/
+def routineDecision (D : Decision) (G : PickleGuard) (mode : String) (i : DecIn) (peak : PeakArg) :
+    Option (String × Nat) :=
+  (processParallel D mode i).map (fun r => (guardedMode G r.1 peak, r.2))
+
 /-- number of pool processes when the parallel path is taken -/
 def poolSize (maxcpu : Option Nat) (cpu : Nat) : Nat :=
   match maxcpu with
